@@ -278,6 +278,20 @@ def frules(tier, PARAMS=PARAMS):
                                 ("B", {}, SEQ(A_("v", "=", REF("C")), L("r"))), ("C", {}, CHILD_BODIES[cc])]
 
 
+def frules_restate():
+    """two modifiers: the root changes the whitespace mode and the child restates the meta-model wide default (or the other way round under
+    the inverse global setting): the child's explicit modifier must win over the mode propagated from its caller"""
+    for rname, rmk in ROOTS.items():
+        if "B" in rname:
+            continue
+        for ca in ("cd", "vd", "c+"):
+            for pm, pa in (({"skipws": False}, {"skipws": True}), ({"skipws": True}, {"skipws": False})):
+                rules = [("M", pm, rmk()), ("A", pa, CHILD_BODIES[ca])]
+                if ca in CHILD_EXTRA and CHILD_EXTRA[ca] not in rules:
+                    rules.append(CHILD_EXTRA[ca])
+                yield "%s|A=%s|restate" % (rname, ca), rules
+
+
 def layouts(tokens, joiners):
     """every assignment of a joiner to every boundary (incl. leading and trailing position: '' or first joiner)"""
     if not tokens:
